@@ -147,64 +147,188 @@ theorem C07_unverified_never_reported_verified (cfg : Cfg) (o : Oracle) (k : Con
     · exact absurd h1 hr
     · rw [hf] at h1; cases h1
 
-/- FULL STATEMENT (false for urllib3 as it is — see `C07_unverified_warns_counterexample`):
-
---  theorem C07_unverified_warns (cfg : Cfg) (o : Oracle) (k : Connected)
---      (hm : cfg.mode ≠ .forwardHttps)                       -- "a direct or tunnelled connection"
---      (h : connect cfg o = .connected k)
---      (hr : effectiveCertReqs cfg ≠ .required) (hf : fpTruthy cfg.assertFingerprint = false) :
---      validateConn k = true ∧ k.isVerified = false
-
-The part that fails is the warning when the connection tunnels through an https proxy whose
-certificate is pinned: `proxy_is_verified` is then True and `_validate_conn` tests
-`not conn.is_verified and not conn.proxy_is_verified`.  Proved: the statement outside that corner,
-and "never reported as verified" without restriction. -/
-theorem C07_unverified_warns_partial (cfg : Cfg) (o : Oracle) (k : Connected)
-    (hm : cfg.mode ≠ .forwardHttps)
-    (hcorner : ¬ (cfg.mode = .tunnelHttps ∧ fpTruthy cfg.proxy.assertFingerprint = true))
+/-- A direct or tunnelled connection made without certificate validation (cert_reqs in force other
+than REQUIRED and no pinned fingerprint for the destination) triggers InsecureRequestWarning and is
+never reported as verified — whatever the proxy hop looks like: inside a CONNECT tunnel
+`_validate_conn` does not let `proxy_is_verified` (a pinned or validated https proxy) stand in for
+the destination.  (Until the repair of `unverified-no-warning:tunnel-https-proxy:proxy-fingerprint-pinned`
+this was only provable outside the corner "https proxy with `proxy_assert_fingerprint`".) -/
+theorem C07_unverified_warns (cfg : Cfg) (o : Oracle) (k : Connected)
+    (hm : cfg.mode ≠ .forwardHttps)                       -- "a direct or tunnelled connection"
     (h : connect cfg o = .connected k)
     (hr : effectiveCertReqs cfg ≠ .required) (hf : fpTruthy cfg.assertFingerprint = false) :
-    validateConn k = true ∧ k.isVerified = false := by
+    validateConn cfg k = true ∧ k.isVerified = false := by
   have hiv := C07_unverified_never_reported_verified cfg o k h hr hf
   refine ⟨?_, hiv⟩
   obtain ⟨obs, v, hw, _, hp⟩ := connect_connected h
   unfold validateConn
   rw [hiv]
   cases hmode : cfg.mode <;> simp only [hmode] at hp
-  · simp [hp.1]
-  · simp [hp.1]
-  · obtain ⟨obs', v', hwp, hpiv, _⟩ := hp
-    obtain ⟨hv', _⟩ := wrap_ok_verified _ _ _ _ _ _ _ _ _ _ _ _ hwp
-    rw [effective_eq_resolve] at hv'
-    have hpf : fpTruthy cfg.proxy.assertFingerprint = false := by
-      cases hx : fpTruthy cfg.proxy.assertFingerprint
-      · rfl
-      · exact absurd ⟨hmode, hx⟩ hcorner
-    have hne : (effectiveCertReqs cfg == VerifyMode.required) = false := by
-      cases hx : effectiveCertReqs cfg <;> simp_all
-    rw [hpf, hne] at hv'
-    simp [hpiv, hv']
+  · simp [hp.1, ProxyMode.tunneling]
+  · simp [ProxyMode.tunneling]
+  · simp [ProxyMode.tunneling]
   · exact absurd hmode hm
 
+/-- the same on the observable trace of one `urlopen`: a request written over a direct or tunnelled
+connection made without certificate validation is preceded by an InsecureRequestWarning -/
+theorem C07_unverified_request_warned (cfg : Cfg) (o : Oracle)
+    (hm : cfg.mode ≠ .forwardHttps)
+    (h : (urlopenOnce cfg o).requestSent = true)
+    (hr : effectiveCertReqs cfg ≠ .required) (hf : fpTruthy cfg.assertFingerprint = false) :
+    (urlopenOnce cfg o).warned = true := by
+  unfold urlopenOnce at h ⊢
+  split
+  · rename_i e hc ws sc hk
+    rw [hk] at h
+    simp [Outcome.requestSent, List.any_append, List.any_map] at h
+  · rename_i k hk
+    have := (C07_unverified_warns cfg o k hm hk hr hf).1
+    simp [Outcome.warned, List.any_append, this]
 
-/-- Negation witness of the full `C07_unverified_warns` (known finding
-`unverified-no-warning:tunnel-https-proxy:proxy-fingerprint-pinned`): tunnel through an https proxy
-whose certificate is pinned, `cert_reqs="NONE"`, origin not pinned — the request is sent over an
-origin session made without any certificate validation (here even to a peer from an unknown CA whose
-certificate matches nothing), `is_verified` is False, and no InsecureRequestWarning is issued. -/
-theorem C07_unverified_warns_counterexample :
-    ∃ cfg o k, cfg.WF ∧ cfg.mode = .tunnelHttps ∧ connect cfg o = .connected k ∧
-      effectiveCertReqs cfg ≠ .required ∧ fpTruthy cfg.assertFingerprint = false ∧
-      k.isVerified = false ∧ validateConn k = false ∧
-      (urlopenOnce cfg o).requestSent = true ∧ (urlopenOnce cfg o).warned = false :=
-  ⟨Ex.pinnedProxyTunnel, Ex.badOrigin, _, by simp [Cfg.WF, CtxWF, Ex.pinnedProxyTunnel, Ex.dflt], rfl, rfl,
-   by decide, rfl, rfl, rfl, rfl, rfl⟩
+/-- The warning is exactly "the TLS session the request travels in was made without verification":
+in a tunnel (and directly) that is the destination's session, `is_verified`; when the request is
+forwarded through an https proxy the proxy is the TLS peer and its verification decides, as before
+the repair (`is_verified` is then always False — "forwarding proxies can never have a verified
+target"). -/
+theorem C07_warns_iff_request_session_unverified (cfg : Cfg) (o : Oracle) (k : Connected)
+    (h : connect cfg o = .connected k) :
+    validateConn cfg k =
+      !(effectiveCertReqs cfg == .required || fpTruthy cfg.assertFingerprint) := by
+  obtain ⟨obs, v, hw, hiv, hp⟩ := connect_connected h
+  obtain ⟨hv, _⟩ := wrap_ok_verified _ _ _ _ _ _ _ _ _ _ _ _ hw
+  rw [effective_eq_resolve] at hv
+  unfold validateConn
+  rw [hiv]
+  cases hmode : cfg.mode <;> simp only [hmode] at hp
+  · simp [hp.1, ProxyMode.tunneling, ← hv]
+  · simp [ProxyMode.tunneling, ← hv]
+  · simp [ProxyMode.tunneling, ← hv]
+  · simp [hp.1, ProxyMode.tunneling, ← hv]
+
+/-- Positive counterpart of the former negation witness (finding
+`unverified-no-warning:tunnel-https-proxy:proxy-fingerprint-pinned`, now repaired), on the same
+concrete input: tunnel through an https proxy whose certificate is pinned, `cert_reqs="NONE"`,
+origin not pinned, origin from an unknown CA whose certificate matches nothing.  The request is
+still sent (nothing was demanded of the origin), `is_verified` is False, `proxy_is_verified` is
+True — and the InsecureRequestWarning is issued. -/
+theorem C07_unverified_warns_pinned_proxy_ok :
+    Ex.pinnedProxyTunnel.WF ∧ Ex.pinnedProxyTunnel.mode = .tunnelHttps ∧
+    effectiveCertReqs Ex.pinnedProxyTunnel ≠ .required ∧
+    fpTruthy Ex.pinnedProxyTunnel.assertFingerprint = false ∧
+    ∃ k, connect Ex.pinnedProxyTunnel Ex.badOrigin = .connected k ∧
+      k.isVerified = false ∧ k.proxyIsVerified = some true ∧
+      validateConn Ex.pinnedProxyTunnel k = true ∧
+      (urlopenOnce Ex.pinnedProxyTunnel Ex.badOrigin).requestSent = true ∧
+      (urlopenOnce Ex.pinnedProxyTunnel Ex.badOrigin).warned = true :=
+  ⟨by simp [Cfg.WF, CtxWF, Ex.pinnedProxyTunnel, Ex.dflt], rfl, by decide, rfl,
+   _, rfl, rfl, rfl, rfl, rfl, rfl⟩
+
+/-! ## The OS default trust store -/
+
+/-- `context.load_default_certs()` is called for a TLS session **iff** no CA material (`ca_certs`,
+`ca_cert_dir`, `ca_cert_data`) was configured and urllib3 built the context itself (no `ssl_context=`;
+for the session with an https proxy we tunnel through: no `proxy_ssl_context=`) — a
+`PyOpenSSLContext` has no such method.  For all configurations and oracles and for every TLS-layer
+call on the trace of one `urlopen`, whether the request was sent or an exception came out. -/
+theorem C07_default_store_iff_unconfigured (cfg : Cfg) (o : Oracle) (w : WrapObs)
+    (hw : Event.wrap w ∈ (urlopenOnce cfg o).events) :
+    w.loadDefault =
+      (if cfg.mode = .tunnelHttps ∧ w.tlsInTls = false then
+        !cfg.caGiven && cfg.proxy.sslContext.isNone && !cfg.env.isPyOpenSSL
+       else !cfg.caGiven && cfg.sslContext.isNone && !cfg.env.isPyOpenSSL) := by
+  have hmem : w ∈ (connect cfg o).wraps := by
+    unfold urlopenOnce at hw
+    split at hw
+    · rename_i e hc ws sc hk
+      rw [hk]
+      simp only [ConnRes.wraps]
+      simp only [List.mem_append, List.mem_map, List.mem_cons] at hw
+      rcases hw with (hw | ⟨a, ha, hw⟩) | hw
+      · rcases hw with hw | hw <;> cases hw
+      · injection hw with hw; subst hw; exact ha
+      · rcases hw with hw | hw <;> cases hw
+    · rename_i k hk
+      rw [hk]
+      simp only [ConnRes.wraps]
+      simp only [List.mem_append, List.mem_map, List.mem_cons] at hw
+      rcases hw with ((hw | ⟨a, ha, hw⟩) | hw) | hw
+      · rcases hw with hw | hw <;> cases hw
+      · injection hw with hw; subst hw; exact ha
+      · split at hw
+        · simp at hw
+        · cases hw
+      · rcases hw with hw | hw <;> cases hw
+  exact connect_wraps cfg o w hmem
+
+/-- … which is exactly when the settings name the system store as a trust anchor (`demands`,
+`proxyDemands`): on a successful `connect()` the request's session (the last TLS-layer call) and the
+https proxy's session (the first one, when tunnelling) were each set up with the OS store loaded iff
+the specification lists it — so together with `C07_sent_only_if_checked` the store is consulted when
+demanded and only then. -/
+theorem C07_default_store_as_demanded (cfg : Cfg) (o : Oracle) (k : Connected)
+    (h : connect cfg o = .connected k) :
+    (∀ w, k.wraps.getLast? = some w → w.loadDefault = (demands cfg).trust.system) ∧
+    (∀ d, proxyDemands cfg = some d → ∀ w, k.wraps.head? = some w → w.loadDefault = d.trust.system) := by
+  obtain ⟨obs, v, hw, _, hp⟩ := connect_connected h
+  have ho := wrap_obs _ _ _ _ _ _ _ _ _ _ obs (by rw [hw]; rfl)
+  constructor
+  · intro w hlast
+    have : w = obs := by
+      cases hmode : cfg.mode <;> simp only [hmode] at hp
+      · rw [hp.2] at hlast; simpa using hlast.symm
+      · rw [hp.2] at hlast; simpa using hlast.symm
+      · obtain ⟨obs', v', _, _, hws⟩ := hp
+        rw [hws] at hlast; simpa using hlast.symm
+      · rw [hp.2] at hlast; simpa using hlast.symm
+    subst this
+    rw [ho.1]
+    simp [demands, peerDemand, wantsSystemStore]
+  · intro d hd w hhead
+    unfold proxyDemands at hd
+    cases hmode : cfg.mode <;> simp only [hmode] at hd hp <;> try (cases hd)
+    obtain ⟨obs', v', hw', _, hws⟩ := hp
+    have ho' := wrap_obs _ _ _ _ _ _ _ _ _ _ obs' (by rw [hw']; rfl)
+    rw [hws] at hhead
+    simp at hhead
+    subst hhead
+    rw [ho'.1]
+    simp [peerDemand, wantsSystemStore]
+
+theorem C07_system_store_demanded_iff (cfg : Cfg) :
+    (demands cfg).trust.system = true ↔
+      cfg.caGiven = false ∧ cfg.sslContext = none ∧ cfg.env.isPyOpenSSL = false := by
+  simp [demands, peerDemand, and_assoc]
+
+/-- … and the store that was loaded counts: with every setting at its default and nothing configured
+(stdlib backend, direct connection) a server whose chain validates against the OS default store
+only, and whose certificate matches the requested name, is connected to and reported verified. -/
+theorem C07_default_store_honoured (cfg : Cfg) (o : Oracle)
+    (h1 : cfg.certReqs = .unset) (h2 : cfg.sslContext = none) (h3 : cfg.assertHostname = .unset)
+    (h4 : cfg.assertFingerprint = none) (hca : cfg.caGiven = false) (hpy : cfg.env.isPyOpenSSL = false)
+    (hm : cfg.mode = .direct)
+    (hv : o.origin.validSystem = true)
+    (hn1 : o.origin.osslMatch (normServerHostname o.isIp (targetName cfg)) false = true)
+    (hn2 : o.origin.u3Match (matchName o.isIp (normServerHostname o.isIp (targetName cfg))) false = true) :
+    ∃ k, connect cfg o = .connected k ∧ k.isVerified = true ∧ validateConn cfg k = false := by
+  rw [← mainServerHostname_eq] at hn1 hn2
+  unfold mainServerHostname at hn1 hn2
+  simp only [hm, ProxyMode.tunneling] at hn1 hn2
+  rcases hcfg : cfg with ⟨⟨py, ncn⟩, host, cr, ah, fp, sh, ctx, ca, mode, th, prx⟩
+  rw [hcfg] at h1 h2 h3 h4 hca hpy hm hn1 hn2
+  simp only at h1 h2 h3 h4 hca hpy hm hn1 hn2
+  subst h1 h2 h3 h4 hca hpy hm
+  simp only [Bool.false_eq_true, if_false] at hn1 hn2
+  cases ncn <;>
+    simp [connect, connectTail, wrapAndMatch, initCertReqs, resolveCertReqs, createUrllib3Context,
+      freshContext, Ctx.setVerifyMode, Ctx.setCheckHostname, fpTruthy, AssertHostname.truthy,
+      AssertHostname.isF, handshakeOk, chainOk, requestPeer, hv, hn1, hn2, validateConn,
+      ProxyMode.tunneling, Bool.false_eq_true]
 
 /-! ## Non-vacuity: concrete instances of the hypotheses -/
 
 -- defaults, good peer: connected, verified, no warning, request sent
 example : Ex.dflt.WF := by simp [Cfg.WF, CtxWF, Ex.dflt]
-example : ∃ k, connect Ex.dflt Ex.good = .connected k ∧ k.isVerified = true ∧ validateConn k = false :=
+example : ∃ k, connect Ex.dflt Ex.good = .connected k ∧ k.isVerified = true ∧ validateConn Ex.dflt k = false :=
   ⟨_, rfl, rfl, rfl⟩
 example : (urlopenOnce Ex.dflt Ex.good).requestSent = true := rfl
 -- defaults, peer from an unknown CA: SSLError, no request, socket closed (hypothesis of C07_failure_closes)
@@ -213,16 +337,41 @@ example : (urlopenOnce Ex.dflt Ex.badOrigin).requestSent = false := rfl
 -- hypotheses of C07_default_demands_both / C07_default_checks_both
 example : Ex.dflt.certReqs = .unset ∧ Ex.dflt.sslContext = none ∧ Ex.dflt.assertHostname = .unset ∧
     Ex.dflt.assertFingerprint = none := ⟨rfl, rfl, rfl, rfl⟩
--- cert_reqs="NONE", direct: connected even to the bad peer, not verified, warning (C07_unverified_warns_partial)
-example : ∃ k, connect Ex.insecure Ex.badOrigin = .connected k ∧ k.isVerified = false ∧ validateConn k = true :=
+-- cert_reqs="NONE", direct: connected even to the bad peer, not verified, warning (C07_unverified_warns)
+example : ∃ k, connect Ex.insecure Ex.badOrigin = .connected k ∧ k.isVerified = false ∧
+    validateConn Ex.insecure k = true :=
   ⟨_, rfl, rfl, rfl⟩
 example : effectiveCertReqs Ex.insecure ≠ .required ∧ fpTruthy Ex.insecure.assertFingerprint = false ∧
-    Ex.insecure.mode ≠ .forwardHttps ∧
-    ¬ (Ex.insecure.mode = .tunnelHttps ∧ fpTruthy Ex.insecure.proxy.assertFingerprint = true) :=
-  ⟨by decide, rfl, by decide, by decide⟩
+    Ex.insecure.mode ≠ .forwardHttps :=
+  ⟨by decide, rfl, by decide⟩
+-- … and the hypotheses of C07_unverified_warns / C07_unverified_request_warned in the repaired corner
+example : effectiveCertReqs Ex.pinnedProxyTunnel ≠ .required ∧
+    fpTruthy Ex.pinnedProxyTunnel.assertFingerprint = false ∧ Ex.pinnedProxyTunnel.mode ≠ .forwardHttps ∧
+    (urlopenOnce Ex.pinnedProxyTunnel Ex.badOrigin).requestSent = true :=
+  ⟨by decide, rfl, by decide, rfl⟩
+-- forwarding through a validated https proxy with cert_reqs REQUIRED: is_verified False, the proxy's
+-- verification suppresses the warning (behaviour kept); with cert_reqs="NONE" it warns
+example : ∃ k, connect Ex.forwarding Ex.good = .connected k ∧ k.isVerified = false ∧
+    k.proxyIsVerified = some true ∧ validateConn Ex.forwarding k = false := ⟨_, rfl, rfl, rfl, rfl⟩
+example : ∃ k, connect { Ex.forwarding with certReqs := .short .none } Ex.good = .connected k ∧
+    k.proxyIsVerified = some false ∧ validateConn { Ex.forwarding with certReqs := .short .none } k = true :=
+  ⟨_, rfl, rfl, rfl⟩
 -- the tunnel through a pinned https proxy is a model of the hypotheses of C07_sent_only_if_checked
 -- with a non-trivial proxy demand
 example : ∃ d, proxyDemands Ex.pinnedProxyTunnel = some d ∧ d.pin = some Ex.pin := ⟨_, rfl, rfl⟩
 example : ∃ k, connect Ex.pinnedProxyTunnel Ex.good = .connected k ∧ k.wraps.length = 2 := ⟨_, rfl, rfl⟩
+
+-- nothing configured, OS default store: Ex.sysDefault satisfies the hypotheses of C07_default_store_honoured,
+-- the TLS layer is entered with the store loaded; with CA material configured (Ex.dflt) it is not
+example : Ex.sysDefault.certReqs = .unset ∧ Ex.sysDefault.sslContext = none ∧ Ex.sysDefault.caGiven = false ∧
+    Ex.sysDefault.env.isPyOpenSSL = false ∧ Ex.sysDefault.mode = .direct ∧ Ex.sysOnly.origin.validSystem = true ∧
+    Ex.sysOnly.origin.validConfigured = false := ⟨rfl, rfl, rfl, rfl, rfl, rfl, rfl⟩
+example : ∃ k, connect Ex.sysDefault Ex.sysOnly = .connected k ∧ k.isVerified = true ∧
+    k.wraps.map (·.loadDefault) = [true] := ⟨_, rfl, rfl, rfl⟩
+example : (urlopenOnce Ex.dflt Ex.sysOnly).result = .error .sslError := rfl
+example : ∃ k, connect Ex.dflt Ex.good = .connected k ∧ k.wraps.map (·.loadDefault) = [false] := ⟨_, rfl, rfl⟩
+-- tunnel through an https proxy: two TLS-layer calls, told apart by tls_in_tls (C07_default_store_iff_unconfigured)
+example : ∃ k, connect { Ex.pinnedProxyTunnel with caGiven := false } Ex.good = .connected k ∧
+    k.wraps.map (fun w => (w.tlsInTls, w.loadDefault)) = [(false, true), (true, true)] := ⟨_, rfl, rfl⟩
 
 end U3.Props
